@@ -251,6 +251,10 @@ func c15Members() map[string][]c15Variant {
 			odd("exp-fraction", map[string]any{"exp": 1.5}), odd("exp-absent", nil, "exp"),
 			odd("iat-string", map[string]any{"iat": "yesterday"}), odd("nbf-object", map[string]any{"nbf": map[string]any{"a": 1}}),
 			odd("sub-number", map[string]any{"sub": 12}), odd("iss-array", map[string]any{"iss": []any{"a"}}),
+			// tokens with the right audience and nonce that the unverified parse accepts and the key set cannot verify:
+			// other serialisations of a JWT (a bare JSON claims object, a JSON-serialised JWS) and a foreign signature
+			{"json-claims-object", "{ALT}claims"}, {"json-jws-flattened", "{ALT}flattened"}, {"json-jws-general", "{ALT}general"},
+			{"foreign-signature", "{ALT}foreign"}, {"signature-stripped", "{ALT}stripped"},
 		},
 		"access_token":  {{"absent", "\x00"}, {"null", "null"}, {"zero", "0"}, {"object", "{}"}},
 		"refresh_token": {{"absent", "\x00"}, {"null", "null"}, {"zero", "0"}, {"object", "{}"}},
@@ -282,6 +286,22 @@ func c15Body(w *world.World, nonce string, members map[string]string) string {
 		}
 		if val == "\x00" {
 			continue
+		}
+		if strings.HasPrefix(val, "{ALT}") {
+			compact := world.Mint(world.KeyEvilEC, nil, honestClaims)
+			seg := strings.Split(compact, ".")
+			switch val[5:] {
+			case "claims":
+				val = mustJSON(mustJSON(honestClaims))
+			case "flattened":
+				val = mustJSON(mustJSON(map[string]any{"protected": seg[0], "payload": seg[1], "signature": seg[2]}))
+			case "general":
+				val = mustJSON(mustJSON(map[string]any{"payload": seg[1], "signatures": []any{map[string]any{"protected": seg[0], "signature": seg[2]}}}))
+			case "foreign":
+				val = mustJSON(compact)
+			case "stripped":
+				val = mustJSON(seg[0] + "." + seg[1] + ".")
+			}
 		}
 		if strings.HasPrefix(val, "{ODD}") {
 			var spec struct {
